@@ -53,7 +53,7 @@ func drawC01(t *rapid.T) *Case {
 			ho.SNILen = 253
 		}
 	}
-	cps, metas := DrawFront(t, FrontOpts{MinClients: 1, MaxClients: 5, MaxReqs: 3, Segment: true, Hello: ho, Sequential: drawBool(t, "seq", 50)})
+	cps, metas := DrawFront(t, FrontOpts{MinClients: 1, MaxClients: 5, MaxReqs: 3, Segment: true, Hello: ho, Sequential: drawBool(t, "seq", 50), HeaderGen: nominateGen(15)})
 	cps, metas = addResumers(t, cps, metas)
 	p.Clients = cps
 	p.Tape, p.Tail = drawTape(t, 64)
@@ -211,7 +211,7 @@ func drawC02(t *rapid.T) *Case {
 	p := &Plan{Check: "C02"}
 	p.Args = drawCommonArgs(t)
 	ho := HelloOpts{AllowNoExt: true}
-	cps, metas := DrawFront(t, FrontOpts{MinClients: 1, MaxClients: 3, MaxReqs: 2, Segment: true, Hello: ho})
+	cps, metas := DrawFront(t, FrontOpts{MinClients: 1, MaxClients: 3, MaxReqs: 2, Segment: true, Hello: ho, HeaderGen: nominateGen(10)})
 	cps, metas = addResumers(t, cps, metas)
 	aux := &c02Aux{Twin: map[int]int{}}
 	n := len(cps)
@@ -324,6 +324,30 @@ func oracleC02(w *World, c *Case) {
 
 var fpNames = []string{"X-JA3-Fingerprint", "X-JA4-Fingerprint", "X-HTTP2-Fingerprint"}
 
+// nominateGen: an HTTP/1.1 client may name any header in its Connection header, the
+// fingerprint headers included (hop-by-hop nomination, RFC 9110 7.6.1); what the proxy
+// injects is its own and has to reach the back-end all the same.
+func nominateGen(pct int) func(t *rapid.T, proto string, ci, ri int) [][2]string {
+	return func(t *rapid.T, proto string, ci, ri int) [][2]string {
+		if proto != "h1" || !drawBool(t, "nominate", pct) {
+			return nil
+		}
+		var toks []string
+		if drawBool(t, "nomka", 40) {
+			toks = append(toks, "keep-alive")
+		}
+		for _, n := range fpNames {
+			if drawBool(t, "nomname", 50) {
+				toks = append(toks, randCase(t, n))
+			}
+		}
+		if len(toks) == 0 {
+			toks = []string{randCase(t, fpNames[0])}
+		}
+		return [][2]string{{"Connection", strings.Join(toks, ", ")}}
+	}
+}
+
 func randCase(t *rapid.T, s string) string {
 	b := []byte(s)
 	for i := range b {
@@ -359,6 +383,9 @@ func drawC05(t *rapid.T) *Case {
 				}
 				h = append(h, [2]string{name, fmt.Sprintf("spoof-%d", tok)})
 			}
+		}
+		if nom := nominateGen(15)(t, proto, ci, ri); nom != nil {
+			h = append(h, nom...)
 		}
 		return h
 	}
@@ -441,10 +468,11 @@ type c15Aux struct {
 	ProbeOn bool
 	Expect  map[string]string // tag -> "local" | "forward" | "either"
 	Method  map[string]string
+	Pending string // tag of the probe whose body is withheld
 }
 
 func drawC15(t *rapid.T) *Case {
-	p := &Plan{Check: "C15"}
+	p := &Plan{Check: "C15", Backend: BackendPlan{Resp: map[string]*RespPlan{}}}
 	aux := &c15Aux{Expect: map[string]string{}, Method: map[string]string{}}
 	switch rapid.IntRange(0, 2).Draw(t, "probeflag") {
 	case 0:
@@ -510,6 +538,20 @@ func drawC15(t *rapid.T) *Case {
 			if drawBool(t, "otherhdr", 30) {
 				h = append(h, [2]string{"X-Other", "kube-probe/1.0"})
 			}
+			if drawBool(t, "sandwich", 20) {
+				// a repeated field around User-Agent: its values must not leak into it
+				v1 := uaVals[rapid.IntRange(0, len(uaVals)-1).Draw(t, "sw1")]
+				v2 := uaVals[rapid.IntRange(0, len(uaVals)-1).Draw(t, "sw2")]
+				h = [][2]string{{"X-Note", "n-" + v1}, h[0], {"Accept", "*/*"}, {"X-Note", v2}}
+			}
+		}
+		if aux.Expect[tag] == "forward" && drawBool(t, "tinyresp", 30) {
+			// the back-end answers with a body of 0 or 1 octets and a Content-Length
+			body := []byte{}
+			if drawBool(t, "tiny1", 60) {
+				body = []byte("x")
+			}
+			p.Backend.Resp[tag] = &RespPlan{Status: 200, Body: body, Header: [][2]string{{"X-Backend-Tag", tag}}}
 		}
 		return h
 	}
@@ -520,6 +562,35 @@ func drawC15(t *rapid.T) *Case {
 			_ = ci
 			aux.Method[m.Reqs[ri].Tag] = m.Reqs[ri].Method
 		}
+	}
+	if aux.ProbeOn && drawBool(t, "pendingbody", 30) {
+		// a probe whose request header has arrived while its body is still outstanding:
+		// the answer does not depend on the body
+		ci := len(cps)
+		tag := fmt.Sprintf("c%d-r0", ci)
+		ua := []string{"kube-probe/1.29", "kube-probe/"}[rapid.IntRange(0, 1).Draw(t, "pbua")]
+		if drawBool(t, "pbh1", 40) {
+			cp := &ClientPlan{ID: ci, Addr: drawAddr(t, ci), Hello: fixedHello("h1")}
+			head := fmt.Sprintf("POST /healthz HTTP/1.1\r\nHost: probe.verif.test\r\nUser-Agent: %s\r\nX-Tag: %s\r\nContent-Length: 10\r\n\r\n", ua, tag)
+			cp.Steps = []Step{{Kind: "connect"}, {Kind: "h1req", Pieces: [][]byte{[]byte(head)}, Tag: tag, Method: "POST"}, {Kind: "close"}}
+			cps = append(cps, cp)
+			metas = append(metas, &ClientMeta{Proto: "h1", Reqs: []ReqSpec{{Tag: tag, Method: "POST", Path: "/healthz"}}})
+		} else {
+			cp := &ClientPlan{ID: ci, Addr: drawAddr(t, ci), Hello: fixedHello("h2")}
+			enc := NewHEnc()
+			fields := [][2]string{{":method", "POST"}, {":scheme", "https"}, {":authority", "probe.verif.test"}, {":path", "/healthz"}, {"user-agent", ua}, {"x-tag", tag}}
+			pre := append([]byte(ClientPreface), FramesBytes(SettingsFrame())...)
+			cp.Steps = []Step{{Kind: "connect"}, {Kind: "write", Pieces: [][]byte{pre}},
+				{Kind: "write", Pieces: [][]byte{FramesBytes(HeadersFrames(1, enc.Block(fields), false, nil, -1, nil)...)}},
+				{Kind: "h2await", Streams: []uint32{1}},
+				{Kind: "write", Pieces: [][]byte{FramesBytes(DataFrame(1, []byte("late body"), true, -1))}},
+				{Kind: "close"}}
+			cps = append(cps, cp)
+			metas = append(metas, &ClientMeta{Proto: "h2", Reqs: []ReqSpec{{Tag: tag, Method: "POST", Path: "/healthz"}}})
+		}
+		aux.Expect[tag] = "local"
+		aux.Method[tag] = "POST"
+		aux.Pending = tag
 	}
 	p.Clients = cps
 	p.Tape, p.Tail = drawTape(t, 32)
@@ -572,6 +643,9 @@ func oracleC15(w *World, c *Case) {
 		for ri, r := range m.Reqs {
 			status, body, hdr, ok := clientResponse(w, c, ci, ri)
 			if !ok {
+				if r.Tag == aux.Pending {
+					w.Violate("probe_not_answered", "probe_not_answered", "probe %s (%s) whose body was still outstanding got no answer (client step errors %v, run stuck=%v)", r.Tag, protoOf(w, ci), w.Clients[ci].StepErrs, w.Stuck)
+				}
 				continue
 			}
 			forwarded := len(by[r.Tag]) > 0
